@@ -4,7 +4,8 @@ Correspondence (vs the Lean object-store model `Nitime.C16`): time operators wit
 kind (result AND operand afterwards), TimeArray element assignment, the operand of
 UniformTime += / -= (accepted, non-uniform, one element), TimeSeries arithmetic / copy / in-place
 on a copy, and periodogram_csd's shape handling at every exit (success, failing middle step,
-non-contiguous input).  The driver answers `<repaired model> ## <source-as-it-stands model>`;
+non-contiguous input), and utils.crosscov (values and inputs afterwards) on integer-valued signals incl.
+exactly-zero-mean ones.  The driver answers `<repaired model> ## <source-as-it-stands model>`;
 the implementation has to follow the repaired one.
 Oracle (never the model): byte snapshots (data, shape, strides, dtype) of every argument around
 every call — the cases above, every public function of nitime.algorithms, every analyzer output,
@@ -13,17 +14,24 @@ and identity / content checks on copies followed by in-place operations.
 """
 import operator, re
 import numpy as np
-from common import Case, Failure, err_kind, np_rng
+from common import Case, Failure, err_kind, np_rng, f2x, parse_flist
 import c01
 
 PID = 'C16'
 LEAN_TARGETS = ['Nitime.Props.C16']
 RULE = ('operators x operand kinds {pyint, list, int64/int32/float64 array, time object} x units; setitem keys/operands; += / -= operands '
         '(uniform, non-uniform, 1 element, wrong length); series arithmetic; periodogram_csd shapes 1-4 d x contiguity x failure; '
-        'entry-point sweep over nitime.algorithms + analyzers with small valid inputs and injected failures; distinct = distinct protocol line / entry point')
-ASSUMPTIONS = ['int32 / float64 operands and the algorithm entry points are judged by snapshots only (not modelled in Lean)',
-               'functions documented as working in place are excluded: none of the public entry points is']
-TRUSTED_EXTRA = ['numpy view/copy semantics (ndarray.reshape, astype, copy) by their documented behaviour',
+        'crosscov on integer-valued signals (generic / antisymmetric = exactly zero mean / pre-centred / zero / constant) x all_lags x debias x normalize; '
+        'entry-point sweep over nitime.algorithms + the array routines of nitime.utils + every analyzer (constructor and every output), each call over '
+        '19 input families (generic, exactly-zero-mean, centred, zeros, constant, unit variance, unit norm, sorted, integer-valued, int64, float32, complex, '
+        'NaN, masked, Fortran, non-contiguous, one channel, short) with injected failures, once on writable and once on read-only buffers; '
+        'distinct = distinct protocol line / entry point x family')
+ASSUMPTIONS = ['the algorithm entry points other than remove_bias/crosscov are judged by snapshots and by the static alias table only (no value model in Lean)',
+               'functions documented as working in place are excluded: normalize_coherence(copy=False), normal_coherence_to_unit(out=), unwrap_phases, fill_diagonal, tridi_inverse_iteration(x0=) — named in Props.C16.inPlaceByContract',
+               'a result that shares memory with an argument (zero_pad at full length, ar_generator returning its noise) is not a failure by itself: only writes to arguments are']
+TRUSTED_EXTRA = ['numpy view/copy semantics (ndarray.reshape, astype, copy, asarray, squeeze, conj …) by their documented behaviour, as classified in harness/translate_c16.py (fresh / same object / view)',
+                 'harness/translate_c16.py: intraprocedural may-alias analysis with per-file function summaries (its table is echoed into the evidence); unknown calls are treated as returning any of their arguments',
+                 'scipy fftconvolve = full linear convolution (the crosscov model computes it naively on rationals; compared numerically on every run)',
                  'the C01 model for operator result values (checked by the C01 run)']
 
 UNITS = c01.UNITS
@@ -86,11 +94,20 @@ def differs(a, b):
 
 
 # ------------------------------------------------------------------ correspondence cases
-KINDS = ['time', 'pyint', 'list', 'int64']
+KINDS = ['time', 'pyint', 'list', 'int64', 'int32', 'float64']
 
 
 def cmp_fixed(impl, model):
     return impl == model.split(' ## ')[0]
+
+
+def cmp_uniform_float(impl, model):
+    """a float64 operand that passes the conversion and uniformity check (model: `ok d`) is then refused by numpy's
+    in-place add into the int64 axis (TypeError: same-kind casting); a refusal by the check itself must be the same"""
+    m = model.split(' ## ')[0]
+    if m.startswith('ok '):
+        return impl == 'err TypeError operand=' + m.split(' operand=', 1)[1]
+    return impl == m
 
 
 def operand_tok(kind, vals, meta=None):
@@ -100,6 +117,10 @@ def operand_tok(kind, vals, meta=None):
         return 'l:' + ','.join(map(str, vals))
     if kind == 'int64':
         return 'a:' + ','.join(map(str, vals))
+    if kind == 'int32':
+        return 'a32:' + ','.join(map(str, vals))
+    if kind == 'float64':
+        return 'f:' + ','.join(f2x(float(v)) for v in vals)
     return c01.tok_T(*meta)
 
 
@@ -110,12 +131,20 @@ def operand_obj(kind, vals, meta=None):
         return list(vals)
     if kind == 'int64':
         return np.array(vals, dtype=np.int64)
+    if kind == 'int32':
+        return np.array(vals, dtype=np.int32)
+    if kind == 'float64':
+        return np.array(vals, dtype=np.float64)
     return c01.mk_T(*meta)
 
 
 def operand_after(kind, obj, vals):
     if kind == 'int64':
         return ','.join(str(int(v)) for v in obj.reshape(-1)) if obj.dtype == np.int64 else 'dtype:' + str(obj.dtype)
+    if kind == 'int32':
+        return ','.join(str(int(v)) for v in obj.reshape(-1)) if obj.dtype == np.int32 else 'dtype:' + str(obj.dtype)
+    if kind == 'float64':
+        return ','.join(f2x(float(v)) for v in obj.reshape(-1)) if obj.dtype == np.float64 else 'dtype:' + str(obj.dtype)
     if kind == 'list':
         return 'same' if obj == list(vals) else 'changed'
     if kind == 'pyint':
@@ -126,6 +155,33 @@ def operand_after(kind, obj, vals):
 def small_ints(rng, n, unit):
     top = min(10**6, (2**61) // FACTOR[unit] // 8)
     return [rng.randint(-top, top) if rng.random() < 0.7 else rng.choice([0, 1, -1, 2]) for _ in range(n)]
+
+
+def small_floats(rng, n, unit):
+    """float64 operand values: |x * factor| stays far inside int64 and the normal binary64 range; value-dependent
+    short cuts (zeros, whole numbers, halves that round to even) are drawn on purpose"""
+    top = min(10.0**6, (2**61) / FACTOR[unit] / 8)
+    mode = rng.random()
+    out = []
+    for _ in range(n):
+        if mode < 0.15:
+            out.append(0.0)
+        elif mode < 0.35:
+            out.append(float(rng.randint(-int(top), int(top))) if top >= 1 else 0.0)
+        elif mode < 0.5:
+            out.append((rng.randint(-1000, 1000) + 0.5) / FACTOR[unit])      # a product near k + 1/2: the rounding direction matters
+        else:
+            out.append(round(rng.uniform(-top, top), rng.choice([1, 3, 6, 12])))
+    return out
+
+
+def kind_vals(rng, kind, n, unit):
+    if kind == 'float64':
+        return small_floats(rng, n, unit)
+    if kind == 'int32':
+        top = min(10**6, (2**61) // FACTOR[unit] // 8, 2**31 - 1)
+        return [rng.randint(-top, top) if rng.random() < 0.7 else rng.choice([0, 1, -1, 2]) for _ in range(n)]
+    return small_ints(rng, n, unit)
 
 
 def gen_binop(rng, op, kind):
@@ -140,7 +196,7 @@ def gen_binop(rng, op, kind):
     elif kind == 'pyint':
         vals = small_ints(rng, 1, ua)
     else:
-        vals = small_ints(rng, rng.choice([1, n, n]), ua)
+        vals = kind_vals(rng, kind, rng.choice([1, n, n]), ua)
     fn = c01.OPS_AR.get(op) or c01.OPS_CMP[op]
     canon = c01.canon_T if op in c01.OPS_AR else c01.canon_B
     obj = operand_obj(kind, vals, meta)
@@ -173,7 +229,7 @@ def gen_setitem(rng, kind):
     elif kind == 'pyint':
         vals = small_ints(rng, 1, unit)
     else:
-        vals = small_ints(rng, rng.choice([m, m, 1, m + 1]) or 1, unit)
+        vals = kind_vals(rng, kind, rng.choice([m, m, 1, m + 1]) or 1, unit)
     obj = operand_obj(kind, vals, meta)
     before = snap(obj)
     t = c01.mk_T(unit, False, ps)
@@ -207,6 +263,13 @@ def gen_uniform(rng, kind, shape):
         meta = ('ps', False, [v * FACTOR[unit] for v in vals])
     if kind == 'pyint':
         vals = vals[:1]
+    if kind == 'float64':
+        # whole numbers as floats, or decimal ramps whose binary64 products are (or are not) equally spaced
+        if rng.random() < 0.5:
+            vals = [float(v) for v in vals]
+        else:
+            stf = rng.choice([0.1, 0.25, 0.3, 1.1, -0.7])
+            vals = [v * stf for v in vals] if shape != 'uniform' else [vals[0] * 0.5 + i * stf for i in range(len(vals))]
     obj = operand_obj(kind, vals, meta)
     before = snap(obj)
     u = ts().UniformTime(t0=0, sampling_interval=10, length=n, time_unit=unit)
@@ -223,7 +286,7 @@ def gen_uniform(rng, kind, shape):
         res = 'err ' + err_kind(e)
     impl = '%s operand=%s' % (res, operand_after(kind, obj, vals))
     line = 'C16 uniform %s %s' % (unit, operand_tok(kind, vals, meta))
-    return Case(line, impl, 'uniform/%s/%s' % (shape, kind), cmp=cmp_fixed,
+    return Case(line, impl, 'uniform/%s/%s' % (shape, kind), cmp=cmp_uniform_float if kind == 'float64' else cmp_fixed,
                 meta={'what': 'uniform', 'kind': kind, 'shape': shape, 'unit': unit, 'n': n, 'vals': vals, 'tmeta': meta,
                       'changed': differs(before, snap(obj))})
 
@@ -291,6 +354,63 @@ def gen_csd(rng, shape=None, contig=None, fail=None):
                 meta={'what': 'csd', 'shape': shape, 'contig': contig, 'fail': fail, 'seed': seed, 'changed': differs(before, snap(s)), 'outcome': oc})
 
 
+def crosscov_inputs(rng, n, fam):
+    if fam == 'zero-mean':
+        h = [rng.randint(-9, 9) for _ in range(n // 2)]
+        return h + ([0] if n % 2 else []) + [-v for v in reversed(h)]
+    if fam == 'zeros':
+        return [0] * n
+    if fam == 'constant':
+        return [rng.randint(-9, 9)] * n
+    if fam == 'centred':
+        v = [rng.randint(-9, 9) for _ in range(n)]
+        return [n * a - sum(v) for a in v]          # integer data minus its mean, scaled by n: the mean is exactly 0
+    return [rng.randint(-9, 9) for _ in range(n)]
+
+
+def run_crosscov(xs, ys, al, db, nm):
+    import nitime.utils as ut
+    import warnings
+    x, y = np.array(xs, dtype=float), np.array(ys, dtype=float)
+    b = (snap(x), snap(y))
+    with warnings.catch_warnings():
+        warnings.simplefilter('ignore')
+        try:
+            r = ut.crosscov(x, y, all_lags=bool(al), debias=bool(db), normalize=bool(nm))
+            res = 'ok ' + (','.join(f2x(float(v)) for v in np.asarray(r).reshape(-1)) or '-')
+        except Exception:  # noqa
+            res = 'err'
+    changed = [nm_ for nm_, b0, a in (('x', b[0], x), ('y', b[1], y)) if snap(a) != b0]
+    return res, changed
+
+
+def cmp_crosscov(impl, model):
+    m = model.split(' ## ')[0]
+    (ri, ii), (rm, im) = impl.rsplit(' inputs=', 1), m.rsplit(' inputs=', 1)
+    if ii != im or ri.split(' ')[0] != rm.split(' ')[0]:
+        return False
+    if ri == 'err':
+        return True
+    a, b = parse_flist(ri[3:]), parse_flist(rm[3:])
+    if len(a) != len(b):
+        return False
+    scale = max([1.0] + [abs(v) for v in a + b])
+    return all(abs(p - q) <= 1e-9 * scale for p, q in zip(a, b))
+
+
+def gen_crosscov(rng):
+    n = rng.randint(1, 8)
+    fx, fy = (rng.choice(['generic', 'generic', 'zero-mean', 'zero-mean', 'centred', 'zeros', 'constant']) for _ in range(2))
+    xs = crosscov_inputs(rng, n, fx)
+    ys = crosscov_inputs(rng, n if rng.random() < 0.93 else n + 1, fy)
+    al, db, nm = (int(rng.random() < p) for p in (0.5, 0.75, 0.75))
+    res, changed = run_crosscov(xs, ys, al, db, nm)
+    impl = '%s inputs=%s' % (res, 'changed' if changed else 'same')
+    line = 'C16 crosscov %s %s %d %d %d' % (','.join(map(str, xs)), ','.join(map(str, ys)), al, db, nm)
+    return Case(line, impl, 'crosscov/%s/%s' % (fx, 'debias' if db else 'raw'), cmp=cmp_crosscov,
+                meta={'what': 'crosscov', 'xs': xs, 'ys': ys, 'flags': [al, db, nm], 'changed': changed, 'fam': fx})
+
+
 def cases(rng, tier, seed):
     k = {'quick': 3, 'thorough': 30}[tier]
     out = []
@@ -304,7 +424,7 @@ def cases(rng, tier, seed):
         for kind in KINDS:
             out.append(gen_setitem(rng, kind))
     for _ in range(15 * k):
-        for kind in ('list', 'int64', 'time'):
+        for kind in ('list', 'int64', 'time', 'int32', 'float64'):
             for shape in ('uniform', 'nonuniform', 'one'):
                 out.append(gen_uniform(rng, kind, shape))
         out.append(gen_uniform(rng, 'pyint', 'one'))
@@ -314,6 +434,8 @@ def cases(rng, tier, seed):
         out.append(gen_csd(rng, sh, cg, fl))
     for _ in range(120 * k):
         out.append(gen_csd(rng))
+    for _ in range(100 * k):
+        out.append(gen_crosscov(rng))
     return out
 
 
@@ -329,6 +451,13 @@ def judge_case(c):
                            {'what': w, 'meta': m, 'line': c.line}, case=c)
         if w == 'setitem' and m['kind'] == 'list' and c.impl.startswith('err') and expected_setitem_ok(m):
             return Failure('setitem/list/raises', '%s: assigning a python list of the right length raises (the list is repeated factor times instead of being scaled)  [%s]' % (c.clause, c.line[:200]),
+                           {'what': w, 'meta': m, 'line': c.line}, case=c)
+        return None
+    if w == 'crosscov':
+        if m['changed']:
+            return Failure('crosscov/%s/input-values-changed' % ('debias' if m['flags'][1] else 'raw'),
+                           'nitime.utils.crosscov(x, y, all_lags=%d, debias=%d, normalize=%d) changed its argument(s) %s in place; x=%s y=%s (x family: %s)'
+                           % (m['flags'][0], m['flags'][1], m['flags'][2], m['changed'], m['xs'], m['ys'], m['fam']),
                            {'what': w, 'meta': m, 'line': c.line}, case=c)
         return None
     if w == 'series':
@@ -361,6 +490,9 @@ def rejudge(d):
     m = d['meta']
     w = d['what']
     rng = common.make_rng(PID, 0, 'replay')
+    if w == 'crosscov':
+        res, changed = run_crosscov(m['xs'], m['ys'], *m['flags'])
+        return judge_case(Case(d['line'], res, 'crosscov', meta=dict(m, changed=changed)))
     if w == 'csd':
         oc, s, before = run_csd(m['shape'], m['contig'], m['fail'], m['seed'])
         m2 = dict(m, changed=differs(before, snap(s)), outcome=oc)
@@ -397,32 +529,136 @@ def rejudge(d):
     return judge_case(Case(d['line'], res, w, meta=m2))
 
 
-def entry_points(rs, variant=0):
-    """(name, callable, args, kwargs) for every public function of nitime.algorithms, small valid inputs"""
+
+# ------------------------------------------------------------------ input families (value-dependent fast paths)
+# Every array handed to an entry point is drawn from one of these families.  A routine that takes a
+# short cut when "there is nothing to do" (already centred, all zero, constant, already normalised,
+# already sorted, already of the wanted dtype / layout, one channel only) does so on exactly these
+# inputs, and a short cut that hands back (or keeps working on) the caller's buffer only shows there.
+FAMILIES = ['generic', 'zero-mean', 'centred', 'zeros', 'constant', 'unit-var', 'unit-norm', 'sorted',
+            'int-valued', 'int-dtype', 'float32', 'complex', 'complex-zero-mean', 'nan', 'masked', 'fortran',
+            'noncontig', 'one-channel', 'short']
+QUICK_FAMILIES = FAMILIES
+
+
+def dyadic(rs, shape):
+    """multiples of 1/8 below 128: sums, means and differences of these are exact in binary64 in any order"""
+    return rs.randint(-1000, 1001, size=shape) / 8.0
+
+
+def fam_array(rs, shape, fam):
+    """float64 array (complex128 / float32 / int64 / masked for those families) of `shape`, structured along the LAST axis"""
+    shape = tuple(int(n) for n in shape)
+    n = shape[-1] if shape else 1
+    g = rs.randn(*shape)
+    if fam in ('generic', 'one-channel', 'short'):
+        return g
+    if fam in ('zero-mean', 'complex-zero-mean'):
+        def zm():
+            b = dyadic(rs, shape)
+            z = b - b[..., ::-1]                 # antisymmetric: the mean along the last axis is EXACTLY 0.0
+            if z.ndim >= 2 and z.shape[0] >= 2:
+                z[-1] = -z[:-1].sum(axis=0)      # … and along the first axis too
+            return z
+        return zm() if fam == 'zero-mean' else zm() + 1j * zm()
+    if fam == 'centred':
+        return g - g.mean(axis=-1, keepdims=True) if g.ndim else g
+    if fam == 'zeros':
+        return np.zeros(shape)
+    if fam == 'constant':
+        return np.full(shape, 2.5)
+    if fam == 'unit-var':
+        # square waves of period 2, 4, 8: mean exactly 0 and variance exactly 1 when the period divides n
+        rows = int(np.prod(shape[:-1])) if len(shape) > 1 else 1
+        out = np.empty((rows, n))
+        for r in range(rows):
+            per = 2 ** (1 + r % 3)
+            out[r] = np.where((np.arange(n) // (per // 2)) % 2 == 0, 1.0, -1.0) * (-1.0) ** (r // 3)
+        return out.reshape(shape)
+    if fam == 'unit-norm':
+        rows = int(np.prod(shape[:-1])) if len(shape) > 1 else 1
+        out = np.zeros((rows, n))
+        for r in range(rows):
+            for j, v in enumerate((0.5, -0.5, 0.5, -0.5)):     # euclidean norm exactly 1, mean exactly 0
+                out[r, (r + j * max(n // 4, 1)) % n] += v
+        return out.reshape(shape)
+    if fam == 'sorted':
+        return np.sort(g, axis=-1)
+    if fam == 'int-valued':
+        return np.round(g * 4)
+    if fam == 'int-dtype':
+        return np.round(g * 4).astype(np.int64)
+    if fam == 'float32':
+        return g.astype(np.float32)
+    if fam == 'complex':
+        return g + 1j * rs.randn(*shape)
+    if fam == 'nan':
+        g = g.copy()
+        g[..., 1 % n] = np.nan
+        return g
+    if fam == 'masked':
+        return np.ma.masked_array(g, mask=np.zeros(shape, dtype=bool))
+    if fam == 'fortran':
+        return np.asfortranarray(g)
+    if fam == 'noncontig':
+        big = rs.randn(*(shape[:-1] + (2 * n,)))
+        return big[..., ::2]
+    raise ValueError(fam)
+
+
+def entry_points(rs, variant=0, fam='generic'):
+    """(name, callable, args, kwargs) for every public function of nitime.algorithms (and the array
+    routines of nitime.utils), small valid inputs drawn from the input family `fam`"""
     import nitime.algorithms as alg
     import nitime.utils as ut
     N = 64 if variant == 0 else 48
-    x = rs.randn(N)
-    X = rs.randn(3, N)
-    X2 = rs.randn(2, N)
+    if fam == 'short':
+        N = 16
+    C = 1 if fam == 'one-channel' else 3
+    A = lambda *shape: fam_array(rs, shape, fam)
+
+    def derived(f, fallback):
+        # helper inputs computed by the library from family data; a family the helper refuses falls back to ordinary data
+        try:
+            return f()
+        except Exception:  # noqa
+            return fallback()
+    x = A(N)
+    X = A(C, N)
+    X2 = A(2, N)
     if variant == 2:
         X = np.asfortranarray(X)
-        X2 = rs.randn(N, 2).T        # non-contiguous
-    ij = [(0, 1), (0, 2), (1, 2)]
+        X2 = A(N, 2).T        # non-contiguous
+    ij = [(0, 1), (0, 2), (1, 2)] if C >= 3 else [(0, 0)]
     xi = rs.randint(0, 3, size=N)
     yi = rs.randint(0, 3, size=N)
+    if fam in ('zeros', 'constant'):
+        xi, yi = np.zeros(N, dtype=int), np.ones(N, dtype=int)
+    elif fam == 'sorted':
+        xi, yi = np.sort(xi), np.sort(yi)
     Sw = np.abs(rs.randn(2, 2, 9)) + 3 * np.eye(2)[:, :, None] + 0j
     Hw = rs.randn(2, 2, 9) + 1j * rs.randn(2, 2, 9)
     cov = np.array([[1.0, 0.2], [0.2, 1.5]])
     a_coef = 0.2 * rs.randn(2, 2, 2)
     R = np.array([np.eye(2) * 2.0, 0.3 * np.eye(2) + 0.05, 0.1 * np.eye(2)])
+    if fam in ('unit-var', 'unit-norm', 'int-valued', 'constant'):
+        Sw = np.ones((2, 2, 9)) * 0.5 + np.eye(2)[:, :, None] * 0.5 + 0j      # unit diagonal: coherence already normalised
+        cov = np.eye(2)
+        R = np.array([np.eye(2), 0.25 * np.eye(2), 0.125 * np.eye(2)])
+    if fam == 'zeros':
+        a_coef = np.zeros((2, 2, 2))
     f1, f2, f3 = (np.abs(rs.randn(9)) + 1 for _ in range(3))
     fxy = rs.randn(9) + 1j * rs.randn(9)
+    if fam in ('unit-var', 'unit-norm', 'constant'):
+        f1, f2, f3 = np.ones(9), np.ones(9), np.ones(9)
+    if fam == 'zeros':
+        fxy = np.zeros(9, dtype=complex)
     tapers, _ = alg.dpss_windows(N, 4, 3)
     events = np.zeros(N)
-    events[[5, 20, 40]] = 1
-    design = np.array(ut.fir_design_matrix(np.array([0, 1, 0, 0, 2, 0, 0, 0, 1, 0, 0, 2, 0, 0, 0, 0] * (N // 16)), 3)) if hasattr(ut, 'fir_design_matrix') else None
-    cache = alg.cache_fft(rs.randn(3, 256), ij, method={'this_method': 'welch', 'NFFT': 64, 'Fs': 2 * np.pi})
+    events[[5, 10, 14] if N < 48 else [5, 20, 40]] = 1
+    m64 = {'this_method': 'welch', 'NFFT': 64, 'Fs': 2 * np.pi}
+    big = A(C, 256)
+    cache = derived(lambda: alg.cache_fft(A(C, 256), ij, method=dict(m64)), lambda: alg.cache_fft(rs.randn(C, 256), ij, method=dict(m64)))
     E = []
     add = lambda name, f, *a, **k: E.append((name, f, a, k))
     add('AR_est_YW', alg.AR_est_YW, x, 3)
@@ -433,13 +669,11 @@ def entry_points(rs, variant=0):
     add('boxcar_filter/1d', alg.boxcar_filter, x, 0.05, 0.3)
     add('boxcar_filter/2d', alg.boxcar_filter, X, 0.05, 0.3)
     add('boxcar_filter/2d-lowpass', alg.boxcar_filter, X, 0, 0.2)
-    add('cache_fft', alg.cache_fft, rs.randn(3, 256), ij, method={'this_method': 'welch', 'NFFT': 64, 'Fs': 2 * np.pi})
+    add('cache_fft', alg.cache_fft, A(C, 256), ij, method=dict(m64))
     add('cache_to_psd', alg.cache_to_psd, cache[1], ij)
     add('cache_to_phase', alg.cache_to_phase, cache[1], ij)
     add('cache_to_relative_phase', alg.cache_to_relative_phase, cache[1], ij)
     add('cache_to_coherency', alg.cache_to_coherency, cache[1], ij)
-    big = rs.randn(3, 256)
-    m64 = {'this_method': 'welch', 'NFFT': 64, 'Fs': 2 * np.pi}
     for nm in ('coherence', 'coherency', 'coherency_phase_spectrum'):
         add(nm, getattr(alg, nm), big, csd_method=dict(m64))
     for nm in ('coherence_bavg', 'coherency_bavg', 'coherency_phase_delay'):
@@ -455,50 +689,96 @@ def entry_points(rs, variant=0):
     add('spectral_matrix_xy', alg.spectral_matrix_xy, Hw, cov)
     add('transfer_function_xy', alg.transfer_function_xy, a_coef, 16)
     add('granger_causality_xy', alg.granger_causality_xy, a_coef, cov, 16)
-    add('correlation_spectrum', alg.correlation_spectrum, x, rs.randn(N))
+    add('correlation_spectrum', alg.correlation_spectrum, x, A(N))
     add('seed_corrcoef', alg.seed_corrcoef, x, X)
     add('dpss_windows', alg.dpss_windows, N, 4, 3)
     add('tapered_spectra', alg.tapered_spectra, X, tapers)
-    add('mtm_cross_spectrum', alg.mtm_cross_spectrum, rs.randn(3, 33) + 0j, rs.randn(3, 33) + 0j, np.ones((3, 33)), sides='onesided')
+    add('tapered_spectra/NW', alg.tapered_spectra, X, (4, 3))
+    add('mtm_cross_spectrum', alg.mtm_cross_spectrum, A(3, 33) + 0j, A(3, 33) + 0j, np.ones((3, 33)), sides='onesided')
+    add('mtm_cross_spectrum/auto', alg.mtm_cross_spectrum, A(3, 33) + 0j, A(3, 33) + 0j, (np.ones((3, 33)), np.ones((3, 33))), sides='twosided')
     add('multi_taper_psd', alg.multi_taper_psd, X, NW=4)
     add('multi_taper_psd/adaptive', alg.multi_taper_psd, X, NW=4, adaptive=True, jackknife=False)
+    add('multi_taper_psd/jackknife', alg.multi_taper_psd, X, NW=4, adaptive=False, jackknife=True)
     add('multi_taper_csd', alg.multi_taper_csd, X, NW=4)
+    add('multi_taper_csd/adaptive', alg.multi_taper_csd, X, NW=4, adaptive=True)
     add('periodogram', alg.periodogram, X)
-    add('periodogram/3d', alg.periodogram, rs.randn(2, 3, N))
+    add('periodogram/3d', alg.periodogram, A(2, 3, N))
     add('periodogram_csd', alg.periodogram_csd, X)
-    add('periodogram_csd/3d', alg.periodogram_csd, rs.randn(2, 2, N))
+    add('periodogram_csd/3d', alg.periodogram_csd, A(2, 2, N))
     add('periodogram_csd/1d', alg.periodogram_csd, x)
     # optional precomputed arguments (transforms, autocorrelations, tapered spectra) are inputs like any other:
-    SkX = np.fft.fft(X)
+    SkX = derived(lambda: np.fft.fft(np.asarray(X)), lambda: np.fft.fft(rs.randn(C, N)))
     add('periodogram/Sk', alg.periodogram, X, Sk=SkX.copy())
     add('periodogram/Sk-twosided', alg.periodogram, X + 0j, Sk=SkX.copy(), sides='twosided')
     add('periodogram_csd/Sk', alg.periodogram_csd, X, Sk=SkX.copy())
     add('periodogram_csd/Sk-twosided', alg.periodogram_csd, X, Sk=SkX.copy(), sides='twosided')
     add('periodogram_csd/Sk-unnormalized', alg.periodogram_csd, X, Sk=SkX.copy(), normalize=False)
-    rxx = ut.autocorr(x)[:5]
+    rxx = derived(lambda: ut.autocorr(x)[:5], lambda: ut.autocorr(rs.randn(N))[:5])
     add('AR_est_YW/rxx', alg.AR_est_YW, x, 3, rxx=rxx.copy())
     add('AR_est_LD/rxx', alg.AR_est_LD, x, 3, rxx=rxx.copy())
-    add('MAR_est_LWR/rxx', alg.MAR_est_LWR, X2, 2, rxx=ut.autocov_vector(np.ascontiguousarray(X2), nlags=3))
-    tsp = alg.tapered_spectra(np.ascontiguousarray(X), tapers)
+    add('MAR_est_LWR/rxx', alg.MAR_est_LWR, X2, 2, rxx=derived(lambda: ut.autocov_vector(np.ascontiguousarray(X2), nlags=3),
+                                                                lambda: ut.autocov_vector(rs.randn(2, N), nlags=3)))
+    tsp = derived(lambda: alg.tapered_spectra(np.ascontiguousarray(X), tapers), lambda: alg.tapered_spectra(rs.randn(C, N), tapers))
     add('adaptive_weights', ut.adaptive_weights, tsp[0].copy(), np.array([0.99, 0.98, 0.95]), sides='onesided')
     add('jackknifed_sdf_variance', ut.jackknifed_sdf_variance, tsp[0].copy(), np.array([0.99, 0.98, 0.95]), sides='onesided', adaptive=False)
-    add('jackknifed_coh_variance', ut.jackknifed_coh_variance, tsp[0].copy(), tsp[1].copy(), np.array([0.99, 0.98, 0.95]), adaptive=False)
+    add('jackknifed_sdf_variance/adaptive', ut.jackknifed_sdf_variance, tsp[0].copy(), np.array([0.99, 0.98, 0.95]), sides='onesided', adaptive=True)
+    add('jackknifed_coh_variance', ut.jackknifed_coh_variance, tsp[0].copy(), tsp[-1].copy(), np.array([0.99, 0.98, 0.95]), adaptive=False)
+    Xc = np.ascontiguousarray(X)
     for fn in ('zscore', 'percent_change', 'autocov', 'autocorr'):
-        add('utils.' + fn, getattr(ut, fn), np.ascontiguousarray(X) + 5.0)
-    add('utils.crosscov', ut.crosscov, x, rs.randn(N))
-    add('utils.zero_pad', ut.zero_pad, np.ascontiguousarray(X), 96)
-    add('utils.unwrap_phases/copy-expected', lambda a: ut.unwrap_phases(a.copy()), rs.uniform(-3, 3, size=20))
+        add('utils.' + fn, getattr(ut, fn), Xc + 5.0)
+        add('utils.%s/as-is' % fn, getattr(ut, fn), A(C, N))
+    for fn in ('autocov', 'autocorr'):
+        add('utils.%s/all-lags' % fn, getattr(ut, fn), A(C, N), all_lags=True)
+    add('utils.zscore/axis0', ut.zscore, A(C, N), axis=0)
+    add('utils.percent_change/axis0', ut.percent_change, A(C, N), ax=0)
+    add('utils.remove_bias', ut.remove_bias, A(C, N), -1)
+    add('utils.remove_bias/axis0', ut.remove_bias, A(C, N), 0)
+    add('utils.crosscov', ut.crosscov, x, A(N))
+    add('utils.crosscov/2d', ut.crosscov, A(C, N), A(C, N))
+    add('utils.crosscov/all-lags', ut.crosscov, A(N), A(N), all_lags=True)
+    add('utils.crosscov/no-debias', ut.crosscov, A(N), A(N), debias=False)
+    add('utils.crosscov/no-normalize', ut.crosscov, A(N), A(N), normalize=False)
+    add('utils.crosscov/axis0', ut.crosscov, A(N, 2), A(N, 2), axis=0)
+    add('utils.crosscorr', ut.crosscorr, A(N), A(N))
+    add('utils.crosscorr/2d', ut.crosscorr, A(C, N), A(C, N), all_lags=True)
+    add('utils.autocov_vector', ut.autocov_vector, A(2, N), nlags=3)
+    add('utils.crosscov_vector', ut.crosscov_vector, A(2, N), A(2, N), nlags=3)
+    add('utils.fftconvolve', ut.fftconvolve, A(N), A(9), axis=0)
+    add('utils.fftconvolve/same', ut.fftconvolve, A(N), A(9), mode='same', axis=0)
+    add('utils.fftconvolve/axis', ut.fftconvolve, A(C, N), A(C, 9), axis=-1)
+    add('utils.zero_pad', ut.zero_pad, Xc, 96)
+    add('utils.zero_pad/same-length', ut.zero_pad, A(C, N), N)
+    add('utils.unwrap_phases/copy-expected', lambda a: ut.unwrap_phases(a.copy()), rs.uniform(-3, 3, size=20) if fam == 'generic' else np.asarray(A(20)))
+    add('utils.dB', ut.dB, np.abs(np.asarray(A(N))) + 1)
+    add('utils.circularize', ut.circularize, A(N))
+    add('utils.normalize_coherence', ut.normalize_coherence, np.clip(np.abs(np.asarray(A(9)).real.astype(float)), 0, 0.9), 6)
+    add('utils.normal_coherence_to_unit', ut.normal_coherence_to_unit, np.asarray(A(9)).real.astype(float), 6)
+    add('utils.threshold_arr', ut.threshold_arr, A(4, 4), 0.1)
+    add('utils.thresholded_arr', ut.thresholded_arr, A(4, 4), 0.1)
+    add('utils.thresholded_arr/two', ut.thresholded_arr, A(4, 4), -0.5, 0.5)
+    add('utils.rescale_arr', ut.rescale_arr, A(N), 0, 1)
+    add('utils.minmax_norm', ut.minmax_norm, A(N))
+    add('utils.minmax_norm/folding', ut.minmax_norm, A(N), mode='folding', folding_edges=(-0.5, 0.5))
+    add('utils.get_bounds', ut.get_bounds, np.sort(np.abs(np.asarray(A(N)).real)), 0.1, 1.0)
+    add('utils.intersect_coords', ut.intersect_coords, rs.randint(0, 3, size=(3, 8)), rs.randint(0, 3, size=(3, 8)))
+    add('utils.generate_mar', ut.generate_mar, a_coef, cov, 32)
+    add('utils.akaike_information_criterion', ut.akaike_information_criterion, cov, 2, 2, 100)
+    add('utils.bayesian_information_criterion', ut.bayesian_information_criterion, cov, 2, 2, 100)
+    add('utils.ar_generator/v', ut.ar_generator, N, 1.0, np.array([0.5, -0.2]), 0, A(N))
+    add('utils.tridi_inverse_iteration', ut.tridi_inverse_iteration, np.arange(1., 9.), np.full(7, 0.5), 1.3)
+    add('utils.detect_lines', ut.detect_lines, x, (4, 3), p=0.5, low_bias=False)
+    add('utils.fir_design_matrix', ut.fir_design_matrix, np.array([0, 1, 0, 0, 2, 0, 0, 0] * (N // 8)), 3)
     add('get_spectra', alg.get_spectra, big, method=dict(m64))
     add('get_spectra/mt', alg.get_spectra, X, method={'this_method': 'multi_taper_csd', 'Fs': 2 * np.pi})
     add('get_spectra/periodogram', alg.get_spectra, X, method={'this_method': 'periodogram_csd', 'Fs': 2 * np.pi})
-    add('get_spectra_bi', alg.get_spectra_bi, big[0], big[1], method=dict(m64))
+    add('get_spectra_bi', alg.get_spectra_bi, big[0], big[-1], method=dict(m64))
     add('freq_response', alg.freq_response, np.array([1.0, 0.5]), np.array([1.0, -0.2]), 16)
     add('entropy', alg.entropy, xi, yi)
     add('conditional_entropy', alg.conditional_entropy, xi, yi)
     add('mutual_information', alg.mutual_information, xi, yi)
     add('entropy_cc', alg.entropy_cc, xi, yi)
     add('transfer_entropy', alg.transfer_entropy, xi, yi)
-    add('fir', alg.fir, rs.randn(2, N), rs.randn(N, 6))
+    add('fir', alg.fir, A(2, N), rs.randn(N, 6))
     add('freq_domain_xcorr', alg.freq_domain_xcorr, x, events, 3, 5)
     add('freq_domain_xcorr_zscored', alg.freq_domain_xcorr_zscored, x, events, 3, 5)
     add('wmorlet', alg.wmorlet, 10, 2, 100)
@@ -508,108 +788,244 @@ def entry_points(rs, variant=0):
     add('triu_indices', alg.triu_indices, 4, 1)
     add('tril_indices', alg.tril_indices, 4, -1)
     # calls made to fail
-    add('FAIL/periodogram_csd/bad-NFFT-3d', alg.periodogram_csd, rs.randn(2, 2, N), NFFT=-1)
-    add('FAIL/periodogram_csd/bad-NFFT-1d', alg.periodogram_csd, rs.randn(N), NFFT=0)
+    add('FAIL/periodogram_csd/bad-NFFT-3d', alg.periodogram_csd, A(2, 2, N), NFFT=-1)
+    add('FAIL/periodogram_csd/bad-NFFT-1d', alg.periodogram_csd, A(N), NFFT=0)
     add('FAIL/periodogram/bad-N', alg.periodogram, X, N=-2)
     add('FAIL/multi_taper_psd/bad-NFFT', alg.multi_taper_psd, X, NW=4, NFFT=-8)
     add('FAIL/multi_taper_csd/bad-NW', alg.multi_taper_csd, X, NW=0.1)
     add('FAIL/tapered_spectra/mismatched', alg.tapered_spectra, X, tapers[:, :N - 5])
-    add('FAIL/seed_corrcoef/mismatched', alg.seed_corrcoef, x, rs.randn(3, N - 1))
+    add('FAIL/seed_corrcoef/mismatched', alg.seed_corrcoef, x, A(3, N - 1))
     add('FAIL/coherence_spec/mismatched', alg.coherence_spec, fxy, f1[:-1], f2)
-    add('FAIL/fir/mismatched', alg.fir, rs.randn(2, N), rs.randn(N - 3, 6))
+    add('FAIL/fir/mismatched', alg.fir, A(2, N), rs.randn(N - 3, 6))
     add('FAIL/AR_est_YW/order-too-big', alg.AR_est_YW, x[:4], 9)
     add('FAIL/MAR_est_LWR/1d', alg.MAR_est_LWR, x, 2)
-    add('FAIL/correlation_spectrum/mismatched', alg.correlation_spectrum, x, rs.randn(N - 7))
-    add('FAIL/periodogram_csd/non-contiguous-3d', alg.periodogram_csd, rs.randn(2, 4, N)[:, ::2, :])
+    add('FAIL/correlation_spectrum/mismatched', alg.correlation_spectrum, x, A(N - 7))
+    add('FAIL/crosscov/mismatched', ut.crosscov, A(N), A(N - 1))
+    add('FAIL/crosscov_vector/mismatched', ut.crosscov_vector, A(2, N), A(3, N - 1))
+    add('FAIL/periodogram_csd/non-contiguous-3d', alg.periodogram_csd, np.asarray(A(2, 4, N))[:, ::2, :])
     return E
 
 
 def analyzers(rs):
-    """(name, factory(ts_input)->analyzer, attributes) over every analyzer class"""
+    """(name, build(series) -> (callable, args, kwargs), attributes) over every analyzer class.  Every
+    constructor argument (series, method dicts, index lists, event objects) is owned by the harness,
+    so that it can be snapshotted before construction and compared after it and after every read."""
     import nitime.analysis as an
     t = ts()
     L = []
     add = lambda name, f, attrs: L.append((name, f, attrs))
-    add('SpectralAnalyzer', lambda s: an.SpectralAnalyzer(s, method={'NFFT': 32}), ['psd', 'cpsd', 'periodogram', 'spectrum_fourier', 'spectrum_multi_taper'])
-    add('FilterAnalyzer', lambda s: an.FilterAnalyzer(s, lb=0.1, ub=0.3, filt_order=16), ['filtered_boxcar', 'filtered_fourier', 'fir', 'iir'])
-    add('CoherenceAnalyzer', lambda s: an.CoherenceAnalyzer(s, method={'this_method': 'welch', 'NFFT': 32, 'n_overlap': 16}), ['coherence', 'coherency', 'phase', 'delay', 'coherence_partial', 'spectrum'])
-    add('MTCoherenceAnalyzer', lambda s: an.MTCoherenceAnalyzer(s), ['coherence', 'confidence_interval'])
-    add('SparseCoherenceAnalyzer', lambda s: an.SparseCoherenceAnalyzer(s, ij=[(0, 1), (1, 2)], method={'this_method': 'welch', 'NFFT': 32}), ['coherence', 'coherency', 'phases', 'spectrum', 'relative_phases', 'delay'])
-    add('SeedCoherenceAnalyzer', lambda s: an.SeedCoherenceAnalyzer(t.TimeSeries(s.data[0].copy(), sampling_interval=s.sampling_interval), s, method={'this_method': 'welch', 'NFFT': 32}), ['coherence', 'coherency', 'relative_phases', 'delay'])
-    add('CorrelationAnalyzer', lambda s: an.CorrelationAnalyzer(s), ['corrcoef', 'xcorr', 'xcorr_norm'])
-    add('SeedCorrelationAnalyzer', lambda s: an.SeedCorrelationAnalyzer(t.TimeSeries(s.data[0].copy(), sampling_interval=s.sampling_interval), s), ['corrcoef'])
-    add('NormalizationAnalyzer', lambda s: an.NormalizationAnalyzer(s), ['percent_change', 'z_score'])
-    add('HilbertAnalyzer', lambda s: an.HilbertAnalyzer(s), ['analytic', 'amplitude', 'phase', 'real', 'imag'])
-    add('MorletWaveletAnalyzer', lambda s: an.MorletWaveletAnalyzer(t.TimeSeries(s.data[0].copy(), sampling_interval=s.sampling_interval), freqs=0.2, sd_rel=0.2), ['analytic', 'amplitude', 'phase', 'real', 'imag'])
-    add('SNRAnalyzer', lambda s: an.SNRAnalyzer(s), ['mt_noise_psd', 'mt_signal_psd', 'mt_coherence', 'mt_information', 'correlation'])
-    add('GrangerAnalyzer', lambda s: an.GrangerAnalyzer(s, order=2), ['causality_xy', 'causality_yx', 'simultaneous_causality', 'order_xy' if False else 'frequencies'])
+    seed1 = lambda s: t.TimeSeries(s.data[0].copy(), sampling_interval=s.sampling_interval)
+    welch = lambda **k: dict({'this_method': 'welch', 'NFFT': 32}, **k)
+    add('SpectralAnalyzer', lambda s: (an.SpectralAnalyzer, (s,), {'method': {'NFFT': 32}}), ['psd', 'cpsd', 'periodogram', 'spectrum_fourier', 'spectrum_multi_taper'])
+    add('SpectralAnalyzer-welch-dict', lambda s: (an.SpectralAnalyzer, (s,), {'method': welch()}), ['psd', 'cpsd'])
+    add('SpectralAnalyzer-mt-dict', lambda s: (an.SpectralAnalyzer, (s,), {'method': {'this_method': 'multi_taper_csd'}}), ['psd', 'cpsd', 'spectrum_multi_taper'])
+    add('FilterAnalyzer', lambda s: (an.FilterAnalyzer, (s,), {'lb': 0.1, 'ub': 0.3, 'filt_order': 16}), ['filtered_boxcar', 'filtered_fourier', 'fir', 'iir'])
+    add('CoherenceAnalyzer', lambda s: (an.CoherenceAnalyzer, (s,), {'method': welch(n_overlap=16)}), ['coherence', 'coherency', 'phase', 'delay', 'coherence_partial', 'spectrum'])
+    add('CoherenceAnalyzer-minimal-dict', lambda s: (an.CoherenceAnalyzer, (s,), {'method': {'this_method': 'welch', 'NFFT': 64}}), ['coherence', 'frequencies'])
+    add('MTCoherenceAnalyzer', lambda s: (an.MTCoherenceAnalyzer, (s,), {}), ['coherence', 'confidence_interval'])
+    add('SparseCoherenceAnalyzer', lambda s: (an.SparseCoherenceAnalyzer, (s,), {'ij': [(0, 1), (1, 2)], 'method': welch()}), ['coherence', 'coherency', 'phases', 'spectrum', 'relative_phases', 'delay'])
+    add('SeedCoherenceAnalyzer', lambda s: (an.SeedCoherenceAnalyzer, (seed1(s), s), {'method': welch()}), ['coherence', 'coherency', 'relative_phases', 'delay'])
+    add('CorrelationAnalyzer', lambda s: (an.CorrelationAnalyzer, (s,), {}), ['corrcoef', 'xcorr', 'xcorr_norm'])
+    add('SeedCorrelationAnalyzer', lambda s: (an.SeedCorrelationAnalyzer, (seed1(s), s), {}), ['corrcoef'])
+    add('NormalizationAnalyzer', lambda s: (an.NormalizationAnalyzer, (s,), {}), ['percent_change', 'z_score'])
+    add('HilbertAnalyzer', lambda s: (an.HilbertAnalyzer, (s,), {}), ['analytic', 'amplitude', 'phase', 'real', 'imag'])
+    add('MorletWaveletAnalyzer', lambda s: (an.MorletWaveletAnalyzer, (seed1(s),), {'freqs': 0.2, 'sd_rel': 0.2}), ['analytic', 'amplitude', 'phase', 'real', 'imag'])
+    add('MorletWaveletAnalyzer-freq-array', lambda s: (an.MorletWaveletAnalyzer, (seed1(s),), {'freqs': np.array([0.1, 0.2]), 'sd_rel': 0.2}), ['analytic', 'amplitude'])
+    add('SNRAnalyzer', lambda s: (an.SNRAnalyzer, (s,), {}), ['mt_noise_psd', 'mt_signal_psd', 'mt_coherence', 'mt_information', 'correlation'])
+    add('GrangerAnalyzer', lambda s: (an.GrangerAnalyzer, (s,), {'order': 2}), ['causality_xy', 'causality_yx', 'simultaneous_causality', 'frequencies'])
+    add('GrangerAnalyzer-ij', lambda s: (an.GrangerAnalyzer, (s,), {'order': 2, 'ij': [(0, 1), (1, 2)]}), ['causality_xy', 'causality_yx'])
+
+    def ev_series(s):
+        e = np.zeros(s.data.shape[-1], dtype=int)
+        e[[5, 30, 60, 90]] = 1
+        e[[15, 45, 75]] = 2
+        return t.TimeSeries(e, sampling_interval=s.sampling_interval, t0=s.t0)
+    add('EventRelatedAnalyzer', lambda s: (an.EventRelatedAnalyzer, (s, ev_series(s), 6), {}), ['FIR', 'xcorr_eta', 'et_data', 'eta', 'ets'])
+    add('EventRelatedAnalyzer-zscore-offset', lambda s: (an.EventRelatedAnalyzer, (s, ev_series(s), 6), {'zscore': True, 'correct_baseline': True, 'offset': -2}), ['eta', 'ets'])
+    add('EventRelatedAnalyzer-events', lambda s: (an.EventRelatedAnalyzer, (s, t.Events(t.TimeArray([3.0, 12.0, 20.0, 31.0], time_unit='s'), i=[1, 2, 1, 2]), 6), {}), ['eta', 'ets', 'et_data'])
     return L
 
 
-def sweep(tier, seed):
-    """snapshots around every entry point; returns (failures, stats)"""
+READONLY_MSG = ('read-only', 'readonly', 'WRITEABLE')
+
+
+def freeze(x, depth=0):
+    """mark every ndarray reachable from an argument read-only"""
+    if isinstance(x, np.ndarray):
+        base = x
+        while isinstance(base, np.ndarray):
+            try:
+                base.flags.writeable = False
+            except ValueError:
+                pass
+            base = base.base
+    elif isinstance(x, dict) and depth < 3:
+        for v in x.values():
+            freeze(v, depth + 1)
+    elif isinstance(x, (list, tuple)) and depth < 3:
+        for v in x:
+            freeze(v, depth + 1)
+
+
+def arrays_in(x, depth=0):
+    if isinstance(x, np.ndarray):
+        yield x
+    elif isinstance(x, dict) and depth < 3:
+        for v in x.values():
+            for a in arrays_in(v, depth + 1):
+                yield a
+    elif isinstance(x, (list, tuple)) and depth < 3:
+        for v in x:
+            for a in arrays_in(v, depth + 1):
+                yield a
+    elif hasattr(x, 'data') and isinstance(getattr(x, 'data', None), np.ndarray) and depth < 3:
+        yield x.data
+
+
+def dict_delta(b0, b1):
+    """'+added~changed-removed' (sorted key names) between two snapshots of a dict argument"""
+    if not (b0[0] == 'D' and b1[0] == 'D'):
+        return 'replaced'
+    d0, d1 = dict(b0[1]), dict(b1[1])
+    nm = lambda k: k.strip("'\"")
+    return ''.join(['+' + nm(k) for k in sorted(d1) if k not in d0] + ['~' + nm(k) for k in sorted(d1) if k in d0 and d0[k] != d1[k]] +
+                   ['-' + nm(k) for k in sorted(d0) if k not in d1])
+
+
+def arg_label(lab):
+    return 'method-dict' if lab in ('method', 'csd_method') else lab
+
+
+def sweep(tier, seed, only=None):
+    """snapshots around every entry point, over every input family; returns (failures, stats)
+
+    per call: (1) every argument (arrays, series, dicts, lists) is snapshotted before and compared after,
+    whether the call returns or raises; (2) when it returns, every array of the result that shares memory
+    with an array argument is overwritten and the argument compared again (a result that IS the caller's
+    buffer is no new result); (3) the same call is repeated on identical inputs whose buffers are marked
+    read-only: a call that returned before and is now refused by numpy because it writes to its argument
+    shows the write even where the values written happen to equal the old ones."""
     import warnings
-    fails, ncalls, nraised, names = [], 0, 0, set()
-    rs = np_rng(PID, seed, 'sweep')
+    fails, ncalls, nraised, names, nro, nalias = [], 0, 0, set(), 0, 0
     variants = [0] if tier == 'quick' else [0, 1, 2]
+    fams = QUICK_FAMILIES if tier == 'quick' else FAMILIES
+    famcount = {}
     with warnings.catch_warnings():
         warnings.simplefilter('ignore')
-        for v in variants:
-            try:
-                E = entry_points(rs, v)
-            except Exception as e:  # noqa
-                fails.append(Failure('entry/setup/%s' % err_kind(e), 'cannot build the entry-point table: %r' % e, {'what': 'sweep'}))
-                continue
-            for name, f, a, k in E:
-                before = [snap(x) for x in a] + [snap(k[key]) for key in sorted(k)]
-                try:
-                    f(*a, **k)
-                    raised = False
-                except Exception:  # noqa
-                    raised = True
-                    nraised += 1
-                ncalls += 1
-                names.add(name)
-                after = [snap(x) for x in a] + [snap(k[key]) for key in sorted(k)]
-                labels = ['arg%d' % i for i in range(len(a))] + sorted(k)
-                for lab, b0, b1 in zip(labels, before, after):
-                    dd = differs(b0, b1)
-                    if dd:
-                        fails.append(Failure('entry/%s/%s-%s' % (name, lab, dd),
-                                             'nitime.algorithms.%s %s its argument `%s` modified (%s)' % (name, 'raised and left' if raised else 'returned with', lab, dd),
-                                             {'what': 'sweep', 'name': name, 'variant': v}))
-                if not raised and name.startswith('FAIL/') and 'non-contiguous' not in name:
-                    pass    # a call expected to fail that succeeds is not a C16 matter
-                if raised and 'non-contiguous' in name:
-                    fails.append(Failure('entry/%s/refused' % name, 'periodogram_csd refuses a non-contiguous input', {'what': 'sweep', 'name': name, 'variant': v}))
-            # analyzers
-            T = ts().TimeSeries
-            for name, mk, attrs in analyzers(rs):
-                data = rs.randn(3, 128)
-                s_in = T(data.copy(), sampling_interval=0.5, t0=2.0, time_unit='s')
-                s_in.metadata['k'] = [1, 2]
-                _ = s_in.time
-                try:
-                    A = mk(s_in)
-                except Exception:  # noqa
-                    nraised += 1
+        reps = 1 if tier == 'quick' else 3          # thorough: three independent draws of every family
+        for v, rep_i in [(v, r) for v in variants for r in range(reps)]:
+            for fam in fams:
+                if only and only.get('fam') not in (None, fam):
                     continue
-                before = snap(s_in)
-                for at in attrs:
+                stream = 'sweep/%d/%s' % (v, fam) + ('' if rep_i == 0 else '/%d' % rep_i)
+                try:
+                    E = entry_points(np_rng(PID, seed, stream), v, fam)
+                    E_ro = entry_points(np_rng(PID, seed, stream), v, fam)     # identical inputs, separate buffers
+                except Exception as e:  # noqa
+                    fails.append(Failure('entry/setup/%s/%s' % (fam, err_kind(e)), 'cannot build the entry-point table for family %s: %r' % (fam, e), {'what': 'sweep'}))
+                    continue
+                tag = '' if fam == 'generic' else '[%s]' % fam
+                for (name, f, a, k), (_, f2, a2, k2) in zip(E, E_ro):
+                    if only and only.get('name') not in (None, name):
+                        continue
+                    rep = {'what': 'sweep', 'name': name, 'variant': v, 'fam': fam, 'seed': seed}
+                    labels = ['arg%d' % i for i in range(len(a))] + [arg_label(key) for key in sorted(k)]
+                    argv = list(a) + [k[key] for key in sorted(k)]
+                    before = [snap(x) for x in argv]
                     try:
-                        getattr(A, at)
+                        res = f(*a, **k)
+                        raised = False
                     except Exception:  # noqa
+                        raised, res = True, None
                         nraised += 1
                     ncalls += 1
-                    names.add(name + '.' + at)
-                    after = snap(s_in)
-                    if after != before:
-                        what = 'data' if dict(after[1])['data'] != dict(before[1])['data'] else 'attributes'
-                        fails.append(Failure('analyzer/%s.%s/input-%s-changed' % (name, at, what),
-                                             'reading %s.%s modified the input time series (%s)' % (name, at, what),
-                                             {'what': 'sweep', 'name': name + '.' + at, 'variant': v}))
-                        before = after
-    return fails, {'entry_calls': ncalls, 'entry_points': len(names), 'raised': nraised}
+                    names.add(name)
+                    famcount[fam] = famcount.get(fam, 0) + 1
+                    after = [snap(x) for x in argv]
+                    hit = False
+                    for lab, b0, b1 in zip(labels, before, after):
+                        dd = differs(b0, b1)
+                        if dd:
+                            hit = True
+                            sym = 'argument-mutated/' + dict_delta(b0, b1) if lab == 'method-dict' else dd
+                            fails.append(Failure('entry/%s/%s%s%s' % (name, lab, '/' if lab == 'method-dict' else '-', sym),
+                                                 'nitime %s %s its argument `%s` modified (%s); input family: %s' % (name, 'raised and left' if raised else 'returned with', lab, dd, fam), rep))
+                    if raised and 'non-contiguous' in name:
+                        fails.append(Failure('entry/%s/refused' % name, 'periodogram_csd refuses a non-contiguous input', rep))
+                    if hit:
+                        continue
+                    # (2) results handed back in the caller's buffer are counted (not a failure by themselves: the
+                    # property is about the arguments staying as they were — any write through such an alias is
+                    # seen by (1) and (3) at the routine that makes it)
+                    if not raised and 'copy-expected' not in name:
+                        for r in arrays_in(res):
+                            if any(xa.size and r.size and np.shares_memory(r, xa) for x in argv for xa in arrays_in(x)):
+                                nalias += 1
+                    # (3) the same call on read-only buffers
+                    if not raised:
+                        argv2 = list(a2) + [k2[key] for key in sorted(k2)]
+                        for x in argv2:
+                            freeze(x)
+                        try:
+                            f2(*a2, **k2)
+                        except Exception as e:  # noqa
+                            msg = str(e)
+                            if isinstance(e, (ValueError, TypeError)) and any(m in msg for m in READONLY_MSG) and 'buffer source array' not in msg:
+                                fails.append(Failure('entry/%s/writes-to-read-only-argument' % name,
+                                                     'nitime %s returns normally on writable inputs but is refused on the same inputs marked read-only (%s): it writes to an argument; input family: %s' % (name, msg[:80], fam), rep))
+                        nro += 1
+                # analyzers
+                T = ts().TimeSeries
+                for name, build, attrs in analyzers(None):
+                    if only and only.get('name') not in (None, name):
+                        continue
+                    data = np.asarray(fam_array(np_rng(PID, seed, stream + '/' + name), (3, 128), fam if fam not in ('one-channel', 'masked') else 'generic'))
+                    s_in = T(data.copy(), sampling_interval=0.5, t0=2.0, time_unit='s')
+                    s_in.metadata['k'] = [1, 2]
+                    _ = s_in.time
+                    rep = {'what': 'sweep', 'name': name, 'variant': v, 'fam': fam, 'seed': seed}
+                    try:
+                        cls, a, k = build(s_in)
+                    except Exception:  # noqa
+                        continue
+                    labels = ['arg%d' % i for i in range(len(a))] + [arg_label(key) for key in sorted(k)]
+                    argv = list(a) + [k[key] for key in sorted(k)]
+                    before = [snap(x) for x in argv]
+                    state = {'before': before}
+
+                    def compare(where, labels=labels, argv=argv, state=state, name=name, rep=rep):
+                        after = [snap(x) for x in argv]
+                        for lab, x, b0, b1 in zip(labels, argv, state['before'], after):
+                            if b0 == b1:
+                                continue
+                            if x is s_in:
+                                what = 'data' if dict(b1[1])['data'] != dict(b0[1])['data'] else 'attributes'
+                                fails.append(Failure('analyzer/%s/input-%s-changed' % (where, what),
+                                                     '%s modified the input time series (%s); input family: %s' % (where, what, fam), rep))
+                            elif lab == 'method-dict':
+                                fails.append(Failure('entry/%s/method-dict/argument-mutated/%s' % (where, dict_delta(b0, b1)),
+                                                     '%s changed the `method` dict passed by the caller: %s -> %r' % (where, '{%s}' % ', '.join('%s: %s' % (k_, v_[-1]) for k_, v_ in b0[1]) if b0[0] == 'D' else b0, x), rep))
+                            else:
+                                fails.append(Failure('entry/%s/%s-argument-mutated' % (where, lab), '%s changed its argument `%s` (%s)' % (where, lab, differs(b0, b1)), rep))
+                        state['before'] = after
+                    try:
+                        A_ = cls(*a, **k)
+                    except Exception:  # noqa
+                        nraised += 1
+                        compare(name)
+                        continue
+                    ncalls += 1
+                    compare(name)
+                    for at in attrs:
+                        try:
+                            getattr(A_, at)
+                        except Exception:  # noqa
+                            nraised += 1
+                        ncalls += 1
+                        names.add(name + '.' + at)
+                        compare(name + '.' + at)
+    return fails, {'entry_calls': ncalls, 'entry_points': len(names), 'raised': nraised, 'families': len(famcount),
+                   'read_only_repeats': nro, 'results_sharing_memory_checked': nalias}
 
 
 def copies(tier, seed):
@@ -739,6 +1155,13 @@ def series_share_nothing(tier, seed):
         producers.append((nm + '-array', lambda x, a, f=f: f(x, a)))
         producers.append((nm + '-scalar', lambda x, a, f=f: f(x, 2.0)))
         producers.append((nm + '-series', lambda x, a, f=f: f(x, t.TimeSeries(a.copy(), sampling_interval=0.5, t0=1.0))))
+        # operands on which "nothing to do" short cuts would trigger: the neutral element as scalar / array / series
+        neutral = 0.0 if nm in ('add', 'sub') else 1.0
+        producers.append((nm + '-neutral-scalar', lambda x, a, f=f, e=neutral: f(x, e)))
+        producers.append((nm + '-neutral-int', lambda x, a, f=f, e=neutral: f(x, int(e))))
+        producers.append((nm + '-neutral-array', lambda x, a, f=f, e=neutral: f(x, np.full(4, e))))
+        producers.append((nm + '-neutral-full-array', lambda x, a, f=f, e=neutral: f(x, np.full((3, 4), e))))
+        producers.append((nm + '-neutral-series', lambda x, a, f=f, e=neutral: f(x, t.TimeSeries(np.full((3, 4), e), sampling_interval=0.5, t0=1.0))))
     for lazy in (False, True):
         for nm, mk in producers:
             def fresh():
@@ -816,24 +1239,38 @@ def unmodelled_operands(tier, seed):
         'floatlist': lambda m: [float(v) for v in np.round(rs.uniform(-50, 50, size=m), 2)],
         'int64-0d': lambda m: np.array(int(rs.randint(-50, 50))),
         'float64-noncontig': lambda m: np.round(rs.uniform(-50, 50, size=2 * m), 3)[::2],
+        # values / dtypes on which a conversion has nothing to do
+        'int64-zeros': lambda m: np.zeros(m, dtype=np.int64),
+        'float64-zeros': lambda m: np.zeros(m),
+        'float64-intvalued': lambda m: np.round(rs.uniform(-50, 50, size=m)),
+        'int64': lambda m: rs.randint(-50, 50, size=m).astype(np.int64),
+        'int64-fortran-2d': lambda m: np.asfortranarray(rs.randint(-50, 50, size=(1, m)).astype(np.int64)),
+        'uint8': lambda m: rs.randint(0, 50, size=m).astype(np.uint8),
     }
     ops = dict(c01.OPS_AR)
     ops.update(c01.OPS_CMP)
     for _ in range(reps):
-        for unit in ('ps', 'us', 's', 'h'):
+        for unit in ('ps', 'us', 's', 'h'):      # 'ps': the conversion factor is 1
             for kind, f in mk.items():
                 m = int(rs.randint(1, 5))
                 for opn, fn in ops.items():
-                    v = f(m)
-                    b = snap(v)
-                    try:
-                        fn(t.TimeArray(np.arange(m), time_unit=unit), v)
-                    except Exception:  # noqa
-                        pass
-                    n += 1
-                    dd = differs(b, snap(v))
-                    if dd:
-                        fails.append(Failure('binop/%s/%s/operand-%s' % (opn, kind, dd), 'TimeArray %s modified its %s operand (%s)' % (opn, kind, dd), {'what': 'operands'}))
+                    # TimeArray and (since repo fix 47d27c9, same conversion) UniformTime as the left operand
+                    for cls_name, left in (('TimeArray', lambda: t.TimeArray(np.arange(m), time_unit=unit)),
+                                           ('UniformTime', lambda: t.UniformTime(t0=0, sampling_interval=1, length=m, time_unit=unit))):
+                        v = f(m)
+                        b = snap(v)
+                        try:
+                            lhs = left()
+                            lb = snap(lhs)
+                            fn(lhs, v)
+                            if snap(lhs) != lb:
+                                fails.append(Failure('binop/%s/%s/%s-self-changed' % (opn, kind, cls_name), '%s %s with a %s operand modified the time object itself' % (cls_name, opn, kind), {'what': 'operands'}))
+                        except Exception:  # noqa
+                            pass
+                        n += 1
+                        dd = differs(b, snap(v))
+                        if dd:
+                            fails.append(Failure('binop/%s/%s/operand-%s' % (opn, kind, dd), '%s %s modified its %s operand (%s)' % (cls_name, opn, kind, dd), {'what': 'operands'}))
                 v = f(m)
                 b = snap(v)
                 try:
@@ -853,8 +1290,12 @@ def unmodelled_operands(tier, seed):
                             base = np.arange(4) * (2 if kind != 'floatlist' else 2.0)
                             if shape == 'nonuniform':
                                 base = base + np.array([0, 0, 1, 0])
-                            v = base.astype(np.int32) if kind == 'int32' else (list(map(float, base)) if kind == 'floatlist' else
-                                                                              (np.repeat(base.astype(float), 2)[::2] if kind == 'float64-noncontig' else base.astype(float)))
+                            if kind in ('int64-zeros', 'float64-zeros'):
+                                base = base * 0
+                            v = (base.astype(np.int32) if kind == 'int32' else list(map(float, base)) if kind == 'floatlist' else
+                                 np.repeat(base.astype(float), 2)[::2] if kind == 'float64-noncontig' else
+                                 base.astype(np.int64) if kind in ('int64', 'int64-zeros') else base.astype(np.uint8) if kind == 'uint8' else
+                                 np.asfortranarray(base.astype(np.int64).reshape(1, -1)) if kind == 'int64-fortran-2d' else base.astype(float))
                         b = snap(v)
                         u = t.UniformTime(t0=0, sampling_interval=10, length=4, time_unit=unit)
                         ub = snap(u)
@@ -911,7 +1352,10 @@ def replay(d):
         fs, _ = oracle(None, 'quick', 0, [], [])
         return next((f for f in fs if f.key == d['key']), None)
     if d.get('what') == 'sweep':
-        fs, _ = sweep('thorough', 0)
+        only = {'name': d.get('name'), 'fam': d.get('fam')} if d.get('name') and d.get('fam') else None
+        fs, _ = sweep('thorough', int(d.get('seed', 0)), only=only)
+        if only and not any(f.key == d.get('key') for f in fs):
+            fs, _ = sweep('thorough', int(d.get('seed', 0)))
     elif d.get('what') == 'copies':
         fs = copies('quick', 0) + axis_copy_forms('quick', 0) + series_share_nothing('quick', 0)
     elif d.get('what') == 'operands':
